@@ -428,6 +428,11 @@ def rule_sibling_names_are_distinct(repo: Repo, rep, rule: str = "R19.10") -> No
                     if isinstance(b, ast.Name) and b.id not in name_vars:
                         name_vars.add(b.id)
                         grew = True
+            elif isinstance(v, ast.Name) and v.id not in name_vars and len(L.defs.get(v.id, [])) > 1:
+                # the same selection written with statements (`if simple: name = None else: name = contextual_name`): the source is itself a
+                # name variable with several alternatives (a single-definition piece like `sanitized = sanitize(key)` is judged inlined)
+                name_vars.add(v.id)
+                grew = True
     name_vars = {v for v in name_vars if v not in fn.params and v != key}
     cfg = CFG(fn.node)
     dom = cfg.dominators()
